@@ -6,8 +6,8 @@ import Qentem.Model.Tmpl.Render
 `hi` of a content of `n` units without any out-of-range access (`Proofs/TmplRenderSafe.lean`):
 
 * siblings are ordered and disjoint, every tag lies inside `[lo, hi]`, `hi ≤ n`;
-* a variable reference has room for its prefix (`off ≥ 5`), its name and the unit after it
-  (`off + len < n`: the `}` / quote that ends it);
+* a variable reference has room for its prefix (`off ≥ 5`) and its name (`off + len ≤ n`; the
+  read of the unit after a `]` is guarded since 487b090);
 * a variable bound to a loop (`idLen ≠ 0`) refers to a level below `lv` — `lv` is a lower bound of
   the length of `loops_items_` at that point (`renderLoop` grows it to `Level + 1`);
 * inline-if: sub-tag start ids are within the sub-tag list, and the tags of the `true` / `false`
@@ -25,7 +25,7 @@ variable {R : Type}
 
 /-- a variable reference that `getValue` can resolve without leaving the content -/
 def wfVar (n lv : Nat) (v : VarRef) : Bool :=
-  decide (v.off + v.len < n) && (v.idLen == 0 || decide (v.level < lv))
+  decide (v.off + v.len ≤ n) && (v.idLen == 0 || decide (v.level < lv))
 
 mutual
 def wfOperand (n lv : Nat) : Operand R → Bool
@@ -41,10 +41,10 @@ mutual
 /-- one tag: `some (start, end)` = the content range it replaces when well-formed -/
 def wfTag (n lv : Nat) : Tag R → Option (Nat × Nat)
   | .var v =>
-    if wfVar n lv v && decide (W1.variablePrefixLength ≤ v.off) then
+    if wfVar n lv v && decide (W1.variablePrefixLength ≤ v.off ∧ v.off + v.len + W1.inLineSuffixLength ≤ n) then
       some (v.off - W1.variablePrefixLength, v.off + v.len + W1.inLineSuffixLength) else none
   | .raw v =>
-    if wfVar n lv v && decide (W1.rawVariablePrefixLength ≤ v.off) then
+    if wfVar n lv v && decide (W1.rawVariablePrefixLength ≤ v.off ∧ v.off + v.len + W1.inLineSuffixLength ≤ n) then
       some (v.off - W1.rawVariablePrefixLength, v.off + v.len + W1.inLineSuffixLength) else none
   | .math ex off endOff =>
     if wfItemVars n lv ex && decide (off ≤ endOff ∧ endOff ≤ n) then some (off, endOff) else none
